@@ -40,6 +40,17 @@ def cases(ctx, rng):
                 L.append(G.op(0, f[0], (f[1], 7, 9), *f[2:]))
                 L.append("snap")
             out.append(({"kind": "plain" if pre == "p" else "sharded", "atime": atime, "gran": gran, "w": w, "fire": True}, L))
+        # two or more read entries reprieved by the same pass: each is re-stamped "now", so the
+        # entry the write then inserts is still behind none of them
+        for w, seq in ((("plain", 3), ("set a A 1", "set b B 1", "set c C 1", "get a", "get b", "set d D 1", "get d", "set e E 1", "touch a", "touch e", "put f F 1", "set g G 1")),
+                       (("plain", 4), ("set a A 1", "set b B 1", "set c C 1", "set d D 1", "get a", "get b", "get c", "put e E 1", "put f F 1", "get f", "set g G 1"))):
+            L = G.header(w, (), "none") + ["snap"]
+            for opl in seq:
+                L.append(G.FIRE)
+                f = opl.split()
+                L.append(G.op(0, f[0], (f[1], 7, 9), *f[2:]))
+                L.append("snap")
+            out.append(({"kind": "plain", "atime": atime, "gran": gran, "w": w, "fire": True, "many": True}, L))
     # behavioural cases: what the NEXT MAINTENANCE does with an entry that was just read
     for atime, gran in ENVS:
         for readop in ("get", "touch", "put"):
